@@ -184,12 +184,15 @@ def write_stream(run, drv, n_cases):
         # `lazy[index] = tensordict` (__setitem__) or the same write key by key with tensors
         # (`set_at_` -> _set_at_str / _set_at_tuple, the path `lazy[index] = tensor` takes too): the
         # two functions repeat the same branches, the model (lazySet) transcribes both
-        how = "setitem" if rng.random() < 0.6 else "set_at_"
+        u = rng.random()
+        # ... or `lazy.update_at_(tensordict, index)`: its own function (`_split_index`, then the members' update_at_ on the
+        # unbound pieces), its own transcription (`lazyUpdateAt`, driver command c08.update_at)
+        how = "setitem" if u < 0.5 else ("set_at_" if u < 0.8 else "update_at_")
         if sum(1 for i in ix if i[0] == "ell") > 1:
             how = "setitem"      # malformed (two Ellipses): only the tensordict write sees the raw index
         metas.append((bs, n, sd, feats, ix, how))
         fs = Raw("(feats" + "".join(" (" + " ".join([k] + [str(x) for x in f]) + ")" for k, f in feats) + ")")
-        reqs.append(sx("c08.set", ["bs"] + list(bs), n, sd, fs, G.ixs_sx(ix)))
+        reqs.append(sx("c08.update_at" if how == "update_at_" else "c08.set", ["bs"] + list(bs), n, sd, fs, G.ixs_sx(ix)))
         reqs.append(sx("c08.split", ["bs"] + list(bs), n, sd, G.ixs_sx(ix)))
     answers = G.ask_all(drv, reqs)
     for j, (bs, n, sd, feats, ix, how) in enumerate(metas):
@@ -223,6 +226,9 @@ def write_stream(run, drv, n_cases):
                 def write(x):
                     if how == "setitem":
                         x[index] = value.clone()
+                    elif how == "update_at_":
+                        # (the DENSE update_at_ indexes the leaves with the raw index: Ellipsis spelled out, as for set_at_)
+                        x.update_at_(value.clone(), index_at if not isinstance(x, O.LazyStackedTensorDict) else index)
                     else:
                         for k, _ in feats:
                             kk = tuple(k.split(".")) if "." in k else k
@@ -755,7 +761,7 @@ def write2_stream(run, drv, n_cases):
 
 
 def shape2_stream(run, drv, n_cases):
-    """correspondence + oracle for unsqueeze / permute / transpose on a lazy stack of lazy stacks:
+    """correspondence + oracle for unsqueeze / squeeze / permute / transpose on a lazy stack of lazy stacks:
     both stack dims of the result, the batch size and every value"""
     from tensordict import LazyStackedTensorDict
     rng = run.rng
@@ -769,8 +775,21 @@ def shape2_stream(run, drv, n_cases):
         sdin = rng.randint(0, rank)
         sdout = rng.randint(0, rank + 1)
         r = rank + 2
-        kind = rng.choice(["unsqueeze", "permute", "permute", "transpose", "transpose"])
-        if kind == "unsqueeze":
+        kind = rng.choice(["unsqueeze", "permute", "permute", "transpose", "transpose", "squeeze", "squeeze"])
+        if kind == "squeeze":
+            # prefer the singleton dims (the outer / the inner stack dim when it has one member, a member dim of size 1)
+            inner_shape = list(bs)
+            inner_shape.insert(sdin, nin)
+            full = list(inner_shape)
+            full.insert(sdout, nout)
+            ones = [i for i, x in enumerate(full) if x == 1]
+            d = rng.choice(ones) if ones and rng.random() < 0.7 else rng.randrange(-r, r)
+            if rng.random() < 0.3:
+                d = d - r if d >= 0 else d
+            if rng.random() < 0.05:
+                d = rng.choice([r, -r - 1])
+            op = ["squeeze", d]
+        elif kind == "unsqueeze":
             op = ["unsqueeze", rng.randrange(-r - 1, r + 1) if rng.random() < 0.93 else rng.choice([r + 1, -r - 2])]
         elif kind == "permute":
             p = list(range(r))
@@ -802,6 +821,8 @@ def shape2_stream(run, drv, n_cases):
             def f(x):
                 if op[0] == "unsqueeze":
                     return x.unsqueeze(op[1])
+                if op[0] == "squeeze":
+                    return x.squeeze(op[1])
                 if op[0] == "permute":
                     return x.permute(*op[1:])
                 return x.transpose(op[1], op[2])
@@ -809,8 +830,10 @@ def shape2_stream(run, drv, n_cases):
                 r = f(LL)
                 if isinstance(r, LazyStackedTensorDict) and all(isinstance(t, LazyStackedTensorDict) for t in r.tensordicts):
                     kindv = ["kind", "lazy2", r.stack_dim, len(r.tensordicts), ["inner_sd"] + [t.stack_dim for t in r.tensordicts]]
+                elif isinstance(r, LazyStackedTensorDict):
+                    kindv = ["kind", "lazy1", r.stack_dim, len(r.tensordicts)]
                 else:
-                    kindv = ["kind", type(r).__name__]
+                    kindv = ["kind", "member"]
                 impl = ["ok", kindv] + G.td_canon(r, feats)
             except TimeoutError:      # a slow box is an infrastructure problem (exit 2), never a verdict
                 raise
@@ -1024,6 +1047,76 @@ def resize_stream(run, drv, n_cases):
             run.oracle_ok("resize_raises")
 
 
+def view_stream(run, drv, n_cases):
+    """correspondence for view / reshape / flatten of a lazy stack, flatten branch (model: Model/C08View.lean):
+    stack dim and number of the lazily stacked pieces, the kind of every piece, every value -- and the SPEC
+    `T.flattenAt` on the dense stack against torch's own reshape of the dense stack"""
+    from tensordict import LazyStackedTensorDict
+    rng = run.rng
+    reqs, metas = [], []
+    for _ in range(n_cases):
+        rank = rng.choice([0, 1, 2, 2, 3])
+        bs = tuple(rng.choice([1, 2, 2, 3]) for _ in range(rank))
+        n = rng.randint(1, 3)
+        sd = rng.randint(0, rank)
+        feats = rng.choice([G.FEATS_PLAIN, G.FEATS_NESTED])
+        full = list(bs)
+        full.insert(sd, n)
+        r = len(full)
+        a = rng.randrange(r)
+        b = rng.randrange(a, r)
+        merged = 1
+        for x in full[a:b + 1]:
+            merged *= x
+        target = full[:a] + [merged] + full[b + 1:]
+        how = rng.choice(["flatten", "flatten", "view", "view_infer", "reshape", "reshape_infer"])
+        if how == "flatten":
+            s_, e_ = (a - r if rng.random() < 0.3 else a), (b - r if rng.random() < 0.3 else b)
+            op, call = ["flatten", s_, e_], ("flatten", (s_, e_))
+        else:
+            given = list(target)
+            if how.endswith("_infer"):
+                given[rng.randrange(len(given))] = -1
+            op, call = ["view"] + target, (how.split("_")[0], tuple(given))
+        fs = Raw("(feats" + "".join(" (" + " ".join([k] + [str(x) for x in f]) + ")" for k, f in feats) + ")")
+        metas.append((bs, n, sd, feats, op, call, target))
+        reqs.append(sx("c08.view", ["bs"] + list(bs), n, sd, fs, op))
+    answers = G.ask_all(drv, reqs)
+    for (bs, n, sd, feats, op, call, target), a in zip(metas, answers):
+        model = parse_sx(a)
+        case = {"bs": list(bs), "n": n, "sd": sd, "feats": [k for k, _ in feats], "call": [call[0], list(call[1])], "target": target}
+        run.case(("view", bs, n, sd, str(call), str(feats)))
+        with time_limit(180):
+            L, ms = G.mk_lazy(bs, n, sd, feats)
+            D = G.dense_of(ms, sd)
+            try:
+                r = getattr(L, call[0])(*call[1])
+                if isinstance(r, LazyStackedTensorDict):
+                    pieces = [["lazy", t.stack_dim] if isinstance(t, LazyStackedTensorDict) else "member" for t in r.tensordicts]
+                    kindv = ["kind", "lazy", r.stack_dim, len(r.tensordicts), ["pieces"] + pieces]
+                else:
+                    kindv = ["kind", type(r).__name__]
+                impl = ["ok", kindv, ["value"] + G.td_canon(r, feats), ["spec"] + G.td_canon(D.reshape(*target), feats)]
+            except TimeoutError:      # a slow box is an infrastructure problem (exit 2), never a verdict
+                raise
+            except Exception:  # noqa: BLE001
+                r, impl = None, ["err"]
+            try:
+                dr = getattr(D, call[0])(*call[1])
+            except TimeoutError:      # a slow box is an infrastructure problem (exit 2), never a verdict
+                raise
+            except Exception:  # noqa: BLE001
+                dr = None
+        run.count("view.outcome", call[0] + ":" + impl[0])
+        run.corr("view", case, impl, model)
+        if r is not None and dr is not None:
+            diff = G.same_td(r, dr)
+            if diff:
+                run.oracle_fail("view", case, f"lazy {call[0]}{call[1]} differs from dense: {diff}", f"view:{call[0]}")
+            else:
+                run.oracle_ok("view")
+
+
 def out_stream(run, drv, n_cases):
     """correspondence + oracle for torch.cat / torch.stack of lazy stacks with out=<lazy stack>
     (model: Model/C08Out.lean): the members of `out` afterwards"""
@@ -1146,7 +1239,7 @@ def main():
     run.trusted += [
         "Model/C08Tensor.lean + Model/C08Index.lean: our rendering of torch (stack/select/index as coordinate maps); validated against torch each run (stream spec_vs_torch), not proved",
         "Model/C08Lazy.lean + Model/C08Lazy2.lean: hand transcription of tensordict/_lazy.py (_split_index, __getitem__, __setitem__, shape ops, ...) and _torch_func.py (_lazy_cat, _stack), also over members that are lazy stacks; tied to the source by the correspondence streams of this check",
-        "harness/c08_ast.py + c08_transcribed.json: the 30 transcribed functions are pinned by a digest of their syntax tree (docstrings, string literals, annotations stripped); an edit is reported as a broken [transcription] correspondence until the model is re-read and the table re-pinned",
+        "harness/c08_ast.py + c08_transcribed.json: the 35 transcribed functions are pinned by a digest of their syntax tree (docstrings, string literals, annotations stripped); an edit is reported as a broken [transcription] correspondence until the model is re-read and the table re-pinned",
         "object identity (which positions of a result share a member object) is outside the Lean model (members are values): covered by the oracle stream alias_stream only",
     ]
     run.build_and_audit(["TdVerif.Props.C08"])
@@ -1169,6 +1262,7 @@ def main():
     apply_stream(run, drv, 400 if quick else 6000)
     resize_stream(run, drv, 500 if quick else 8000)
     out_stream(run, drv, 300 if quick else 5000)
+    view_stream(run, drv, 300 if quick else 5000)
     # extended domain: the property's oracle on every supported operation of the real code
     O.read_ops_stream(run, 1200 if quick else 14000)
     O.mut_ops_stream(run, 800 if quick else 12000)
